@@ -278,10 +278,15 @@ CLAIMED = {
              "COMMENT is read back exactly when Ser reports no error for it, a DOCTYPE in all four shapes; and the "
              "lift to WHOLE STREAMS of doctype, comments, text, whitespace, start/empty and end tags without raw-text "
              "elements: if Ser accepts the stream (for comments: with an empty error list), S_tok reads its output "
-             "back token by token. PARTIAL: raw-text elements and entity tokens are decided by re-tokenizing the real output with S_tok "
-             "(extracted) for trees parsed from generated markup x options; seven listed findings.",
+             "back token by token. Element by element, the content and end tag of RAW-TEXT elements (text without '</' and U+0000; "
+             "in particular whenever Ser reports no error for the text token), of RCDATA elements (any text, written "
+             "escaped) and of SCRIPT (text without '<!' as well) are read back exactly in the state the parser switches "
+             "to; for script text with '<!--<script' the statement is refuted by a theorem and listed as a finding. "
+             "PARTIAL: the lift of those to whole streams (the parser's state switch is not part of S_tok) and entity "
+             "tokens are decided by re-tokenizing the real output with S_tok (extracted) for trees parsed from generated "
+             "markup x options; eight listed findings.",
         design_ref="DESIGN.md 3 C08",
-        note="four serializer/parser defects repaired in /repo.",
+        note="five serializer/parser defects repaired in /repo.",
         technique="Coq proof (induction over text/value against the per-character specification machine) + "
                   "differential correspondence + re-tokenization oracle in extracted OCaml"),
     "C07": dict(
